@@ -44,7 +44,7 @@ pub fn encode_ty(ty: &tast::Ty) -> String {
 }
 
 pub fn go_ident(name: &str) -> String {
-    if is_valid_go_ident(name) && !is_go_keyword(name) {
+    if is_valid_go_ident(name) && !is_go_keyword(name) && !is_go_reserved(name) {
         return name.to_string();
     }
     let mut out = String::from("_goml_");
@@ -81,6 +81,50 @@ fn is_valid_go_ident(s: &str) -> bool {
         return false;
     }
     rest.iter().all(|b| b.is_ascii_alphanumeric() || *b == b'_')
+}
+
+/// Names the emitted file uses for something of its own: Go's predeclared identifiers that
+/// the runtime and the generated helpers rely on (a declaration of that name at package level
+/// would shadow them), `init` (which Go only allows as a function without parameters), the
+/// wrapper of the entry point and the runtime's import. A program's item of such a name is
+/// escaped like a keyword.
+fn is_go_reserved(s: &str) -> bool {
+    matches!(
+        s,
+        "any"
+            | "append"
+            | "byte"
+            | "cap"
+            | "clear"
+            | "close"
+            | "comparable"
+            | "complex"
+            | "complex64"
+            | "complex128"
+            | "copy"
+            | "delete"
+            | "error"
+            | "imag"
+            | "int"
+            | "iota"
+            | "len"
+            | "make"
+            | "max"
+            | "min"
+            | "new"
+            | "nil"
+            | "panic"
+            | "print"
+            | "println"
+            | "real"
+            | "recover"
+            | "rune"
+            | "uint"
+            | "uintptr"
+            | "init"
+            | "main0"
+            | "fmt"
+    )
 }
 
 fn is_go_keyword(s: &str) -> bool {
